@@ -1,21 +1,15 @@
 #!/bin/bash
-# refactorcheck.sh <dir with */patch.diff> : behaviour-preserving variants must stay silent.
+# refactorcheck.sh [dir with */patch.diff] : behaviour-preserving variants must stay silent.
+# Each variant is applied to a scratch copy of /repo; variants are processed 8 at a time.
 export GOFLAGS=-mod=mod GOPROXY=off GOSUMDB=off GOTOOLCHAIN=local; unset GOWORK
-props=$(python3 -c "import json;print(' '.join(c['property_id'] for c in json.load(open('/verif/MANIFEST.json'))['checks']))")
-for d in ${1:-/verif/benign}/*; do
-  [ -f $d/patch.diff ] || continue
+if [ "$1" = "--one" ]; then
+  d=$2
   scratch=$(mktemp -d /tmp/mut.XXXXXX); cp -r /repo/. $scratch/; rm -rf $scratch/.git
-  (pp=$(readlink -f $d/patch.diff); cd $scratch && patch -p1 -s < $pp) || { echo "$(basename $d): PATCH FAILED"; rm -rf $scratch; continue; }
-  (cd $scratch && go build ./... 2>/dev/null) || { echo "$(basename $d): NOCOMPILE"; rm -rf $scratch; continue; }
-  vd=$(mktemp -d /tmp/mutv.XXXXXX); cp /verif/known_findings.json $vd/
-  alarms=""
-  for p in $props; do
-    out=$(${ARGVERIF:-/verif/bin/argverif} -repo $scratch -verif $vd -property $p 2>&1); rc=$?
-    if [ $rc -ne 0 ]; then
-      rules=$(echo "$out" | grep -oE "rule=[A-Z0-9-]+" | sort -u | sed 's/rule=//' | tr '\n' ',')
-      alarms="$alarms $p[$rules]"
-    fi
-  done
+  (pp=$(readlink -f $d/patch.diff); cd $scratch && patch -p1 -s < $pp) || { echo "$(basename $d): PATCH FAILED"; rm -rf $scratch; exit 0; }
+  (cd $scratch && go build ./... 2>/dev/null) || { echo "$(basename $d): NOCOMPILE"; rm -rf $scratch; exit 0; }
+  alarms=$(/verif/tools/allprops.sh $scratch)
   echo "$(basename $d): ${alarms:-silent}"
-  rm -rf $scratch $vd
-done
+  rm -rf $scratch
+  exit 0
+fi
+ls -d ${1:-/verif/benign}/*/ | sed 's,/$,,' | xargs -P 8 -I{} /verif/tools/refactorcheck.sh --one {} | sort -V
